@@ -85,6 +85,11 @@ def run(chk):
                     if name == 'fixed-start':
                         continue
                     jit_lines.append(Case(prog, mem=pk, fam=name).line(engine='jit', kind='fixed') + ' d=%d e=%d reps=1' % (d, e))
+        # code larger than one, two and three pages, with the caller-supplied executable memory starting on each page parity
+        for n in (700, 1500, 2600):
+            for xoff in (0, 1, 2, 3):
+                p = B.mov(0, 0) + B.alu('add', 0, imm=1) * n + B.EXIT
+                jit_lines.append(Case(p, fam='big-code').line(engine='jit', kind='raw') + ' xoff=%d' % xoff)
         # assembler: texts obtained from the disassembler of valid programs, and mangled variants
         dis = vlib.harness_run(b_std, ['disasm %s' % c.prog.hex() for c in cases[:400]])
         texts = []
@@ -120,7 +125,7 @@ def run(chk):
             if canon(x) != canon(y):
                 found = True
                 if len(chk.violations) < 12:
-                    chk.violation({'kind': 'counterexample', 'request': l[:2000], 'std_answer': x[:300], 'no_std_answer': y[:300],
+                    chk.violation({'kind': 'counterexample', 'request': l if len(l) <= 60000 else l[:2000] + ' ... ' + l[-200:], 'std_answer': x[:300], 'no_std_answer': y[:300],
                                    'meaning': 'the no_std build answers differently from the default build'})
         chk.cov['evaluations'] = len(lines) + len(jit_lines)
         chk.cov['distinct_nontrivial'] = len(set(lines)) + len(set(jit_lines))
